@@ -2180,20 +2180,32 @@ class SQLModel:
             if clean_anno is not None:
                 sql_start = "SELECT  -- " + clean_anno
         subsql_add_query_name = not is_union
-        substr_1 = near_sql.sub_sql1.convert_subsql(
-            db_model=self,
-            sql_format_options=sql_format_options,
-            quoted_query_name_annotation=near_sql.sub_sql1.public_name_quoted
-            if subsql_add_query_name
-            else None,
-        )
-        substr_2 = near_sql.sub_sql2.convert_subsql(
-            db_model=self,
-            sql_format_options=sql_format_options,
-            quoted_query_name_annotation=near_sql.sub_sql2.public_name_quoted
-            if subsql_add_query_name
-            else None,
-        )
+
+        def _operand(sub_sql):
+            lines = sub_sql.convert_subsql(
+                db_model=self,
+                sql_format_options=sql_format_options,
+                quoted_query_name_annotation=sub_sql.public_name_quoted
+                if subsql_add_query_name
+                else None,
+            )
+            if is_union and (not sub_sql.near_sql.is_table):
+                # an operand that ends in ORDER BY / LIMIT must not be written directly into the UNION:
+                # its ORDER BY / LIMIT would apply to the whole union (or be a syntax error)
+                op_suffix = getattr(sub_sql.near_sql, "suffix", None) or []
+                if any(
+                    si.strip().upper().startswith(("ORDER BY", "LIMIT"))
+                    for si in op_suffix
+                ):
+                    lines = (
+                        ["SELECT", sql_format_options.sql_indent + "*", "FROM", "("]
+                        + [sql_format_options.sql_indent + si for si in lines]
+                        + [") " + sub_sql.near_sql.quoted_query_name]
+                    )
+            return lines
+
+        substr_1 = _operand(near_sql.sub_sql1)
+        substr_2 = _operand(near_sql.sub_sql2)
         sql = (
             [sql_start]
             + self._indent_and_sep_terms(
